@@ -7,16 +7,17 @@ ID = "C08"
 LEAN_TARGETS = ["Rsp.Props.C08", "Rsp.Tie.C08"]
 THEOREMS = ["Rsp.Tie.C08.realmRegFlags_tie", "Rsp.Props.C08.realmPattern_plain", "Rsp.Props.C08.realmPattern_star", "Rsp.Props.C08.realmPattern_regex", "Rsp.Props.C08.parseFrag_plain",
             "Rsp.Props.C08.fragSearch_lits", "Rsp.Props.C08.plain_realm_matches_iff", "Rsp.Props.C08.star_realm_matches_all", "Rsp.Props.C08.rxEval_meets_spec",
-            "Rsp.Props.C08.id2realm_first", "Rsp.Props.C08.id2realm_none_iff", "Rsp.Props.C08.realmServers_table", "Rsp.Props.C08.noServerOutcome_table"]
+            "Rsp.Props.C08.id2realm_first", "Rsp.Props.C08.id2realm_none_iff", "Rsp.Props.C08.realmServers_table", "Rsp.Props.C08.noServerOutcome_table",
+            "Rsp.Props.C08.freerq_silent", "Rsp.Props.C08.route_no_realm", "Rsp.Props.C08.route_no_list", "Rsp.Props.C08.route_forwards", "Rsp.Props.C08.star_never_unrouted"]
 RULE = ("ordered lists of 1..6 realm blocks mixing plain names (letters, digits, '.', '-', case variants, names that are suffixes of each other), '*' and /regex/ realms, each with/without "
         "servers, accounting servers, ReplyMessage, AccountingResponse; User-Names derived from the configured names as exact/upper/lower/suffix/prefix/infix/superstring/dot-replaced "
-        "variants with zero, one or many '@', non-ASCII octets, lengths 1..253; Access- and Accounting-Requests. non-trivial = a request was forwarded or answered locally")
+        "variants with zero, one or many '@', non-ASCII octets, lengths 0..253; Access- and Accounting-Requests. non-trivial = a request was forwarded or answered locally")
 EXHAUSTIVE = {}
 ASSUMPTIONS = ["User-Names without NUL octets (the property's quantifier); regexec of the C library answers for /regex/ realms (recorded, not modelled)",
                "plain realm names consist of letters, digits, '.' and '-' (others go through the recorded regexec answers)"]
 LEVEL_TEXT = ("Lean 4 theorems: addrealm's expression for a plain name is '@' + dot-escaped name + '$' (realmPattern_plain), lies in the modelled ERE fragment (parseFrag_plain) and "
               "matches exactly the identifiers ending in '@name' caselessly, for every name and identifier (plain_realm_matches_iff, by induction); '*' matches everything; id2realm "
-              "returns the first matching block (id2realm_first / none_iff); server-list choice and the no-server outcomes are the documented table. Tied to the code by world histories: "
+              "returns the first matching block (id2realm_first / none_iff); server-list choice and the no-server outcomes are the documented table; and the stage of radsrv that takes the decision does exactly that (route_no_realm: released, no queue and no server touched; route_no_list; route_forwards; star_never_unrouted: with a '*' block no User-Name, the empty one included, is left without a realm). Tied to the code by world histories: "
               "the Lean regexec-fragment is compared with the C library's regexec through the routing decision on every generated User-Name.")
 LEVEL_NOTE = ("Trusted: Lean kernel + std axioms, harness, generators, libc regexec for /regex/ realms. Modelled: addrealm's construction, regexec on the constructed fragment, id2realm "
               "(no sub-realms), findserver without dynamic lookup, the no-server branch of radsrv.")
